@@ -89,6 +89,8 @@ pub(crate) enum AppointmentInfo {
 enum StoredAppointment {
     New,
     Update,
+    /// The appointment could not be stored (its owner is not in the database anymore).
+    NotStored,
 }
 
 /// Types of new triggered appointments handled by the [Watcher].
@@ -222,7 +224,9 @@ impl Watcher {
             }
             // Regular appointments that have not been triggered (or, at least, not recently)
             None => {
-                self.store_appointment(uuid, &extended_appointment);
+                if self.store_appointment(uuid, &extended_appointment) == StoredAppointment::NotStored {
+                    return Err(AddAppointmentFailure::AuthenticationFailure);
+                }
             }
         };
         drop(locator_cache);
@@ -250,9 +254,11 @@ impl Watcher {
             );
             dbm.update_appointment(uuid, appointment).unwrap();
             StoredAppointment::Update
-        } else {
-            dbm.store_appointment(uuid, appointment).unwrap();
+        } else if dbm.store_appointment(uuid, appointment).is_ok() {
             StoredAppointment::New
+        } else {
+            // The only way this can fail is if the user has just been deleted (its subscription was outdated by a new block).
+            StoredAppointment::NotStored
         }
     }
 
@@ -276,7 +282,9 @@ impl Watcher {
                 // Data needs to be added the database straightaway since appointments are
                 // FKs to trackers. If handle breach fails, data will be deleted later.
                 // Notice the appointment may already be there (with no tracker): it is updated in that case.
-                self.store_appointment(uuid, appointment);
+                if self.store_appointment(uuid, appointment) == StoredAppointment::NotStored {
+                    return TriggeredAppointment::Rejected;
+                }
 
                 if let ConfirmationStatus::Rejected(reason) = self.responder.handle_breach(
                     uuid,
